@@ -126,6 +126,47 @@ impl UnitRunner for C14 {
           out.evaluations += 1;
           let oc = s.run("c := {x | x <- a}");
           if let Outcome::Value(cc) = &oc { out.nontrivial += 1; if let (Some(got), Some(want)) = (check_set(cc, &format!("comprehension:{}", uname), &case, out), want_keys(&a_cls)) { if got != want && !a_cls.is_empty() { out.fail(format!("C14|wrong-result|comprehension:{}", uname), format!("{}; c := {{x | x <- a}}", case), format!("got {}", cc.short())); } } }
+          // comprehension shapes with one or two generators and filters (two generators over the same set must collapse duplicates)
+          {
+            let mut shapes: Vec<(&str, String, Option<BTreeSet<String>>)> = vec![
+              ("two-generators-same-set", "{x | x <- a, y <- a}".to_string(), want_keys(&a_cls)),
+              ("filter-member", "{x | x <- a, x ∈ a}".to_string(), want_keys(&a_cls)),
+            ];
+            // `==` between tuples or between sets is not part of this property: the equality filter is used on scalar universes only
+            if uname != "tuple" && uname != "set" { shapes.push(("filter-two-generators-equal", "{x | x <- a, y <- a, x == y}".to_string(), want_keys(&a_cls))); }
+            if uname == "f64" {
+              // class c of the f64 universe is the number c + 1
+              let vals: Vec<f64> = a_cls.iter().map(|c| (*c + 1) as f64).collect();
+              let k = |v: f64| format!("f64:{}", crate::canon::f64_text(v));
+              let set_of = |it: Vec<f64>| -> Option<BTreeSet<String>> { Some(it.into_iter().map(k).collect()) };
+              shapes.push(("filter-greater", "{x | x <- a, x > 1}".to_string(), set_of(vals.iter().cloned().filter(|v| *v > 1.0).collect())));
+              shapes.push(("map-many-to-one", "{x % 2 | x <- a}".to_string(), set_of(vals.iter().map(|v| v % 2.0).collect())));
+              shapes.push(("map-constant", "{x * 0 | x <- a}".to_string(), set_of(vals.iter().map(|v| v * 0.0).collect())));
+              shapes.push(("map-linear", "{x * 2 + 1 | x <- a}".to_string(), set_of(vals.iter().map(|v| v * 2.0 + 1.0).collect())));
+              shapes.push(("two-generators-sum", "{x + y | x <- a, y <- {1, 2}}".to_string(), set_of(vals.iter().flat_map(|x| [1.0, 2.0].iter().map(move |y| x + y)).collect())));
+              shapes.push(("two-generators-filter", "{x * 10 + y | x <- a, y <- a, x < y}".to_string(), set_of(vals.iter().flat_map(|x| vals.iter().filter(move |y| x < *y).map(move |y| x * 10.0 + y)).collect())));
+              shapes.push(("two-generators-intersection", "{x | x <- a, y <- {2, 3}, x == y}".to_string(), set_of(vals.iter().cloned().filter(|v| *v == 2.0 || *v == 3.0).collect())));
+              shapes.push(("two-filters", "{x | x <- a, x > 1, x < 4}".to_string(), set_of(vals.iter().cloned().filter(|v| *v > 1.0 && *v < 4.0).collect())));
+              let pairs: BTreeSet<String> = vals.iter().flat_map(|x| [1.0f64, 2.0].iter().map(move |y| format!("({},{})", format!("f64:{}", crate::canon::f64_text(*x)), format!("f64:{}", crate::canon::f64_text(*y))))).collect();
+              shapes.push(("two-generators-pairs", "{(x, y) | x <- a, y <- {1, 2}}".to_string(), Some(pairs)));
+            }
+            for (ci, (shape, text, want)) in shapes.iter().enumerate() {
+              out.evaluations += 1;
+              let oc = s.run(&format!("k{} := {}", ci, text));
+              match (&oc, want) {
+                (Outcome::Value(cc), Some(want)) => {
+                  out.nontrivial += 1;
+                  out.count(&format!("comprehension_shape:{}", shape));
+                  if let Some(got) = check_set(cc, &format!("comprehension-{}:{}", shape, uname), &format!("{}; c := {}", case, text), out) {
+                    // an empty result may be spelled as the empty value rather than an empty set
+                    if &got != want { out.fail(format!("C14|wrong-result|comprehension-{}:{}", shape, uname), format!("{}; c := {}", case, text), format!("the comprehension denotes {:?}, got {}", want, cc.short())); }
+                  } else if !want.is_empty() { out.fail(format!("C14|wrong-result|comprehension-{}:{}", shape, uname), format!("{}; c := {}", case, text), format!("the comprehension denotes {:?}, got {}", want, cc.short())); }
+                }
+                (Outcome::Panic(m), _) => out.fail(format!("C14|panic|comprehension-{}:{}", shape, uname), format!("{}; c := {}", case, text), m.clone()),
+                _ => { out.count(&format!("comprehension_rejected:{}:{}", shape, uname)); }
+              }
+            }
+          }
           // membership of every universe element
           for e in 0..nel {
             for (op, neg) in [("∈", false), ("∉", true)] {
@@ -241,7 +282,7 @@ impl Check for C14 {
   fn unit_budget(&self, _t: Tier) -> Duration { Duration::from_secs(120) }
   fn drive(&mut self, tier: Tier, cfg: &PoolCfg, rep: &mut Report) {
     let nu = self.us.len() as u64;
-    rep.rule = format!("{} element universes (f64, u8, i64, r64 with equal fractions, strings, bools, tuples, nested sets written in different orders, signed zeros); every sequence of length <= {} over a universe written as a set literal (all insertion orders, repeats included), the same via matrix conversion and an identity comprehension, set/size, membership of every universe element, \
+    rep.rule = format!("{} element universes (f64, u8, i64, r64 with equal fractions, strings, bools, tuples, nested sets written in different orders, signed zeros); every sequence of length <= {} over a universe written as a set literal (all insertion orders, repeats included), the same via matrix conversion, an identity comprehension and comprehension shapes with one or two generators and filters (two generators over one set, membership and equality filters for every universe; numeric filters, many-to-one, constant and linear maps, sums, pairs, joins over two generators for f64), set/size, membership of every universe element, \
       and every ordered pair of such sets x 8 operators (union, intersection, difference, symmetric difference, subset, superset, strict subset, strict superset), plus cross-kind operand pairs; evaluations = statements evaluated; non-trivial = statements that produced a value judged against the mathematical definition", nu, self.maxlen());
     rep.assumptions = vec!["element identity is value equality: 0.0 = -0.0, 1/2 = 2/4, nested sets are unordered, tuples compare elementwise".into(), "iteration order and the element kind recorded for an empty set are not judged".into()];
     rep.cov("bounds", json!({"universes": self.us.iter().map(|u| u.name).collect::<Vec<_>>(), "max_sequence_length": self.maxlen()}));
